@@ -3,10 +3,13 @@
   [A]: `list_names` yields exactly the NAME tokens of the very lexer the parser uses, in order, up
   to the first lexical error; a NAME token is never a keyword; name lookups of the evaluator go
   only through `NameOp`, `CallOp` and compound assignment and ask for the name written in that
-  node.  [B] pending: the names occurring in a parsed tree are NAME tokens of the text (needs the
-  parser soundness theorem of C06).
+  node.  [B] `tree_names_from_tokens` / `mentioned_names_are_listed`: every identifier occurring anywhere in a
+  parsed tree (variable, callee, parameter, assignment target) is the value of a NAME token of the text — hence
+  in `list_names(src)` — or one of the six implicit names (mutual induction over the levelled derivation
+  relation, lifted to the parser by the soundness theorem of C06; SqLemmas/ParseNames.lean).
 -/
 import Sq.Session
+import SqLemmas.ParseNames
 namespace SqProps.C18
 open Sq
 
@@ -81,6 +84,30 @@ theorem other_nodes_do_not_look_up (vm : Nat) (k : List Frame) (w : World) :
 def implicitNames : List String := ["list", "dict", "__getitem__", "__setitem__", "__delitem__", "__setitem_with_op__"]
 
 theorem implicit_names_are_builtins : ∀ n ∈ implicitNames, n ∈ builtinNames := by decide
+
+/-- **[B]** every identifier of a parsed tree is a NAME token of the token list it was parsed from,
+    or an implicit name — for every token list the parser accepts -/
+theorem tree_names_from_tokens {ts : List Token} {tree : Op} (h : parseTokens ts = .ok tree) :
+    ∀ x, Mentions tree x → TokName ts x ∨ x ∈ implicitNameList := parsed_names_are_tokens h
+
+/-- the implicit names of the lemma are the six documented ones, all builtins -/
+theorem implicit_list_is_documented : implicitNameList = implicitNames.map String.toList := by decide
+
+/-- **[B] list_names covers the tree**: for every text that lexes and parses, every identifier the tree
+    mentions is reported by `list_names(src)` (or is implicit).  With `nameop_looks_up_its_name` /
+    `callop_looks_up_its_name` (the evaluator asks only for names written in nodes) this is the
+    "consequently" clause of the property. -/
+theorem mentioned_names_are_listed (s : Session) (src : List Char) (ts : List Token) (st' : LexSt)
+    (hlex : lexFrom LexSt.init src = .ok (ts, st')) (tree : Op) (hp : parseTokens ts = .ok tree) :
+    ∀ x, Mentions tree x → x ∈ (listNamesCall s src none).1.1 ∨ x ∈ implicitNameList := by
+  intro x hx
+  rcases parsed_names_are_tokens hp x hx with ⟨t, hm, hty, hv⟩ | hi
+  · left
+    rw [list_names_eq_name_tokens, hlex]
+    simp only
+    rw [List.mem_map]
+    exact ⟨t, List.mem_filter.mpr ⟨hm, by simp [hty]⟩, hv⟩
+  · exact Or.inr hi
 
 /-! finite tests -/
 example : (listNamesResult LexSt.init "f(x, %my var%) + 'str' # c\nfor y".toList none).1 =
